@@ -95,7 +95,7 @@ def is_c11(ev):
 
 
 def is_c10(ev):
-    return ev["k"] in ("u", "b", "h")
+    return ev["k"] in ("u", "b", "h", "e")
 
 
 def run(pid, tier, replay=None):
